@@ -509,7 +509,11 @@ def alphabet(cfg, level="std"):
         if level == "full":
             A += [("loan", "USD", "1000"), ("loan", "BTC", str(3 * u))]
     else:
-        A += [("loan", "USD", "100"), ("repay", -1)]
+        # without a lending strategy every borrow request fails - explicit or through an auto-borrow order that is short of
+        # funds (large amount) - while an auto-borrow order that needs no loan is an ordinary order
+        A += [("loan", "USD", "100"), ("repay", -1),
+              ("ord", "mkt", "S", 0, str(1000 * u), None, None, True, False),
+              ("ord", "lim", "B", 0, str(u), "100", None, True, True)]
     if level != "small":
         # invalid requests
         A += [("ord", "mkt", "B", 0, "0", None, None, False, False),
